@@ -203,7 +203,7 @@ def make_designs(ctx: Ctx, n: int, focus_over: dict | None = None):
         focus = {'p_bg': 1.0, 'p_mask': 0.25, 'allow_junction_pam': False, 'p_gtf': 0.85, 'p_custom': 0.5, 'p_pam': 0.6,
                  'custom_kinds': ['snv', 'mnv', 'ins', 'del', 'delins_u'], 'bg_kinds': ['snv', 'snv', 'ins', 'ins', 'del', 'del', 'mnv'],
                  'bg_upstream': ctx.rng.random() < 0.7, 'p_pam_edge': 0.3, 'n_pam': [1, 2, 3, 4], 'bg_on_custom': 0.4,
-                 'bg_adjacent': 0.35}
+                 'bg_adjacent': 0.35, 'first_frame': ctx.rng.choice([0, 0, 0, 1, 2])}      # a coding sequence cut at its start: frame 1 or 2 on the first CDS
         focus.update(focus_over or {})
         d = gen.gen_sge(ctx.rng, focus)
         if not d.get('bg'):
@@ -383,16 +383,190 @@ def context_stage(ctx: Ctx):
     ctx.sample({'context_case': {'variants(pos,ref_len,alt_len)': cases[0][0], 'asked': list(cases[0][1]), 'impl': tables[0][:6]}})
 
 
+# ---------------------------------------------------------------- S-api: the transcript in background coordinates (lift_exons)
+
+LIFT_IMPORTS = ['Model.Base', 'Model.Pattern', 'Model.Gpo', 'Model.Transcript', 'Model.LiftExons']
+
+
+def api_lift(args):
+    """(strand, exons [(s, e, index, frame)] ascending, variants [(pos, ref_len, alt_len)], (a, b)) -> [(s, e, index, frame)] of the real
+    lift_exons (as Transcript.lift_exons keeps them: ascending), or None when it raised."""
+    strand, exons, vs, (a, b) = args
+    common.use_repo()
+    from valiant.exon import Exon
+    from valiant.genomic_position_offsets import GenomicPositionOffsets
+    from valiant.strings.strand import Strand
+    from valiant.transcript import lift_exons
+    from valiant.uint_range import UIntRange, UIntRangeSortedList
+    from valiant.var_stats import VarStats
+    try:
+        g = GenomicPositionOffsets.from_var_stats([VarStats(*v) for v in vs], UIntRange(a, b))
+        out = UIntRangeSortedList(lift_exons(Strand(strand), g, [Exon(s, e, i, f) for s, e, i, f in exons]))
+        return [(x.start, x.end, x.index, x.frame) for x in out]
+    except Exception:
+        return None
+
+
+def lift_stage(ctx: Ctx):
+    """Transcripts of 1-4 exons (any first frame, consistent frames after it) under disjoint variants anywhere in the context - substitutions
+    in exons, indels in introns and in exons, deletions over an exon end, a start or a whole exon: the lifted exons = the Coq model; and when no
+    exon changes length = the annotated exons moved by the shift of their first base, with their numbers and frames."""
+    from .. import codoncheck as cc
+    rng = ctx.rng
+    cases = []
+    for _ in range(ctx.n(700, 9000)):
+        strand = rng.choice('+-')
+        k = rng.choice([1, 2, 3, 3, 4])
+        pos, segs = rng.randint(8, 12), []
+        for _i in range(k):
+            ln = rng.choice([1, 2, 3, 4, 5, 7, 9, 12])
+            segs.append((pos, pos + ln - 1))
+            pos += ln + rng.randint(2, 7)
+        a, b = 5, pos + 4
+        order = segs if strand == '+' else list(reversed(segs))
+        f, ex = rng.choice([0, 0, 0, 1, 2]), []
+        for s_, e_ in order:
+            ex.append((s_, e_, f))
+            f = gen.next_frame(f, e_ - s_ + 1)
+        exons = cc.numbered(sorted(ex), strand)
+        vs, taken = [], set()
+        for _j in range(rng.choice([0, 1, 1, 2, 3, 4])):
+            kind = rng.choice(['snv', 'snv', 'ins', 'del', 'del', 'mnv'])
+            rl, al = {'snv': (1, 1), 'ins': (0, rng.randint(1, 4)), 'del': (rng.randint(1, 6), 0), 'mnv': (2, 2)}[kind]
+            p = rng.choice([rng.randint(a + 1, b - 7)] + [s_ + d_ for s_, e_ in segs for d_ in (-2, -1, 0)] + [e_ + d_ for s_, e_ in segs for d_ in (-1, 0, 1)])
+            span = set(range(p, p + max(rl, 1) + 1))
+            if p <= a or p + rl > b or span & taken:
+                continue
+            taken |= span | {p - 1}
+            vs.append((p, rl, al))
+        vs.sort()
+        cases.append((strand, exons, vs, (a, b)))
+    res = pool_map(api_lift, cases, chunksize=64)
+    exprs = []
+    for (strand, exons, vs, (a, b)), got in zip(cases, res):
+        ctx.evaluations += 1
+        ex = coq_list(f'mkEx {s_} {e_} {i_} {f_}' for s_, e_, i_, f_ in exons)
+        impl = 'None' if got is None else '(Some ' + coq_list(f'mkEx {s_} {e_} {i_} {f_}' for s_, e_, i_, f_ in got) + ')'
+        exprs.append(f'lift_agrees (do g <- from_var_stats {coq_list(f"mkVS {p} {rl} {al}" for p, rl, al in vs)} (mkRange {a} {b}); '
+                     f'lift_exons {"Plus" if strand == "+" else "Minus"} g {ex}) {impl}')
+        # independent expectation when no variant changes the length of, or cuts into, an exon
+        touching = [v for v in vs if v[1] != v[2] and any(s_ - 1 <= v[0] + max(v[1], 1) - 1 and v[0] <= e_ + (1 if v[1] == 0 else 0) for s_, e_, _, _ in exons)]
+        ctx.count('lift:' + ('exon_changed' if touching else 'shifted' if any(v[1] != v[2] for v in vs) else 'in_place'))
+        if not touching:
+            shift = lambda q: q + sum(al - rl for p, rl, al in vs if p <= q and rl != al)
+            want = [(shift(s_), shift(s_) + (e_ - s_), i_, f_) for s_, e_, i_, f_ in exons]
+            if any(v[1] != v[2] for v in vs):
+                ctx.nontriv(('lift', strand, tuple(exons), tuple(vs)))
+            if got != want:
+                ctx.violation('spec_violation', f'lifted transcript on {strand}: exons {exons} under {vs} became {got}, expected {want} (no exon changes length)',
+                              {'surface': 'api', 'kind': 'lift', 'case': [strand, [list(e) for e in exons], [list(v) for v in vs], [a, b]], 'got': got, 'expected': want})
+    bad, err = coq_eval(LIFT_IMPORTS, exprs, chunk=300)
+    ctx.corr['cases'] += len(exprs)
+    if err:
+        ctx.violation('correspondence', 'model evaluation failed: ' + err[:300], broken='coqc cases (C06 lift_exons)', no_input=True)
+    for i in bad[:20]:
+        ctx.corr['disagreements'] += 1
+        strand, exons, vs, (a, b) = cases[i]
+        ctx.violation('correspondence', f'lift_exons differs from the model for exons {exons} on {strand} under {vs}',
+                      {'surface': 'api', 'kind': 'lift_model', 'case': [strand, [list(e) for e in exons], [list(v) for v in vs], [a, b]], 'got': res[i]},
+                      broken='correspondence S-api transcript.lift_exons (Model/LiftExons.v)')
+
+# ---------------------------------------------------------------- S-api: the targeton in background coordinates (lift_targeton_config)
+
+LT_IMPORTS = ['Model.Base', 'Model.Pattern', 'Model.Gpo', 'Model.Targeton', 'Model.LiftTargeton']
+
+
+def api_lift_targeton(args):
+    """((a, b) targeton, (p, q) region 2, e1, e3, variants, (ca, cb) context) -> [ref.start, ref.end, r2.start, r2.end, e1, e3] | error code"""
+    (a, b), (p, q), e1, e3, vs, (ca, cb) = args
+    common.use_repo()
+    from valiant.genomic_position_offsets import GenomicPositionOffsets
+    from valiant.loaders.targeton_config import TargetonConfig
+    from valiant.sge_proc import lift_targeton_config
+    from valiant.strings.strand import Strand
+    from valiant.uint_range import UIntRange
+    from valiant.var_stats import VarStats
+    try:
+        g = GenomicPositionOffsets.from_var_stats([VarStats(*v) for v in vs], UIntRange(ca, cb))
+        t = TargetonConfig(UIntRange(a, b), UIntRange(p, q), 'chr1', Strand('+'), e1, e3, ([], [], []), frozenset())
+    except Exception:
+        return None
+    try:
+        t2 = lift_targeton_config(g, t)
+        return [t2.ref.start, t2.ref.end, t2.region_2.start, t2.region_2.end, t2.region_1_length, t2.region_3_length]
+    except ValueError:
+        return [-2]
+    except RuntimeError:
+        return [-4]
+    except AssertionError:
+        return [-5]
+    except Exception:
+        return [-9]
+
+
+def lift_targeton_stage(ctx: Ctx):
+    rng = ctx.rng
+    cases = []
+    for _ in range(ctx.n(700, 9000)):
+        ca = rng.randint(3, 9)
+        a = ca + rng.randint(1, 6)
+        b = a + rng.randint(4, 30)
+        cb = b + rng.randint(0, 8)
+        p = rng.randint(a, b)
+        q = rng.randint(p, b)
+        e1 = rng.randint(0, p - a) if rng.random() < 0.8 else rng.randint(0, 3)
+        e3 = rng.randint(0, b - q) if rng.random() < 0.8 else rng.randint(0, 3)
+        vs, taken = [], set()
+        for _j in range(rng.choice([0, 1, 1, 2, 3])):
+            kind = rng.choice(['snv', 'ins', 'ins', 'del', 'del', 'mnv'])
+            rl, al = {'snv': (1, 1), 'ins': (0, rng.randint(1, 4)), 'del': (rng.randint(1, 5), 0), 'mnv': (2, 2)}[kind]
+            x = rng.choice([rng.randint(ca + 1, cb), a + rng.randint(-2, 1), b + rng.randint(-2, 1), p + rng.randint(-2, 1), q + rng.randint(-2, 1)])
+            span = set(range(x, x + max(rl, 1) + 1))
+            if x <= ca or x + rl - 1 > cb or span & taken:
+                continue
+            taken |= span | {x - 1}
+            vs.append((x, rl, al))
+        vs.sort()
+        cases.append(((a, b), (p, q), e1, e3, vs, (ca, cb)))
+    res = pool_map(api_lift_targeton, cases, chunksize=64)
+    exprs, kept = [], []
+    for c, got in zip(cases, res):
+        if got is None:
+            continue          # the targeton itself is not a valid row (C18/C19), or the variants do not fit the context
+        (a, b), (p, q), e1, e3, vs, (ca, cb) = c
+        ctx.evaluations += 1
+        ctx.count('lift_targeton:' + ('ok' if len(got) > 1 else 'refused'))
+        if len(got) > 1 and any(v[1] != v[2] and v[0] <= b for v in vs):
+            ctx.nontriv(('lt', c[0], c[1], tuple(vs)))
+        exprs.append(f'table_agrees (match (do g <- from_var_stats {coq_list(f"mkVS {x} {rl} {al}" for x, rl, al in vs)} (mkRange {ca} {cb}); '
+                     f'lift_targeton g (mkT (mkRange {a} {b}) (mkRange {p} {q}) {e1} {e3})) with '
+                     f'| Ok t => [rs (t_ref t); re (t_ref t); rs (t_r2 t); re (t_r2 t); t_e1 t; t_e3 t] | Err e => [enc_err e] end) {coq_list(coq_z(x) for x in got)}')
+        kept.append(c)
+    bad, err = coq_eval(LT_IMPORTS + ['Model.GpoTable'], exprs, chunk=300)
+    ctx.corr['cases'] += len(exprs)
+    if err:
+        ctx.violation('correspondence', 'model evaluation failed: ' + err[:300], broken='coqc cases (C06 lift_targeton)', no_input=True)
+    for i in bad[:20]:
+        ctx.corr['disagreements'] += 1
+        ctx.violation('correspondence', f'lift_targeton_config differs from the model for {kept[i]}',
+                      {'surface': 'api', 'kind': 'lift_targeton_model', 'case': [list(kept[i][0]), list(kept[i][1]), kept[i][2], kept[i][3], [list(v) for v in kept[i][4]], list(kept[i][5])]},
+                      broken='correspondence S-api sge_proc.lift_targeton_config (Model/LiftTargeton.v)')
+
+
 def run(ctx: Ctx):
     context_stage(ctx)
     files(ctx)
+    lift_stage(ctx)
+    lift_targeton_stage(ctx)
     return {'rule': 'Metamorphic on the real tool: random SGE designs with background SNV/MNV anywhere and non-coding insertions/deletions upstream of, inside and '
                     'downstream of the targetons (with BED masks, PAM edits, custom variants, 1-3 targetons) are run next to the same design on the pre-edited genome '
                     '(reference = splice of the unmasked variants, every coordinate lifted): rows must correspond one-to-one on all content columns except those touching '
                     'a shift, with mut_position/ref_start/ref_end/MAVE offsets being the REF images; background_seq, background_variants checked against the spec. '
                     'Non-trivial = targeton with a coordinate-shifting variant at or before its end. S-api: the real get_gpo_ctx on the real schema (in-memory SQLite) for '
                     'disjoint variant sets around a context, with chains that each round of the widening loop reaches: returned context, ALT length and the ALT image of every '
-                    'position = Coq model (Model/Context.v, vm_compute), and = the closure spec (length + net change of the variants the returned context reaches).'}
+                    'position = Coq model (Model/Context.v, vm_compute), and = the closure spec (length + net change of the variants the returned context reaches); '
+                    'the real lift_exons and lift_targeton_config on transcripts / targetons under disjoint variants (substitutions, indels in introns and exons, deletions over exon ends) = '
+                    'the models (Model/LiftExons.v, Model/LiftTargeton.v) and, when no exon changes length, = the annotated exons shifted with their numbers and frames.'}
 
 
 def _case_pair(c):
